@@ -278,9 +278,11 @@ SU_vector SQuIDS::GetIntermediateState(unsigned int nrh, double xi) const{
     xit--;
   size_t xid=std::distance(x.begin(),xit);
   //linearly interpolate between the two states
-  double f2=((xi-x[xid])/(x[xid+1]-x[xid]));
+  //with a single node there is nothing to interpolate: that node's state is used
+  const size_t xid2=(xid+1<x.size() ? xid+1 : xid);
+  double f2=(xid2!=xid ? (xi-x[xid])/(x[xid2]-x[xid]) : 0.);
   double f1=1-f2;
-  return f1*state[xid].rho[nrh] + f2*state[xid+1].rho[nrh];
+  return f1*state[xid].rho[nrh] + f2*state[xid2].rho[nrh];
 }
 
 double SQuIDS::GetExpectationValueD(const SU_vector& op, unsigned int nrh, double xi) const{
@@ -312,10 +314,12 @@ double SQuIDS::GetExpectationValueD(const SU_vector& op, unsigned int nrh, doubl
   size_t xid=std::distance(x.begin(),xit);
 
   //linearly interpolate between the two states
-  double f2=((xi-x[xid])/(x[xid+1]-x[xid]));
+  //with a single node there is nothing to interpolate: that node's state is used
+  const size_t xid2=(xid+1<x.size() ? xid+1 : xid);
+  double f2=(xid2!=xid ? (xi-x[xid])/(x[xid2]-x[xid]) : 0.);
   double f1=1-f2;
   buf.state =f1*state[xid].rho[nrh];
-  buf.state+=f2*state[xid+1].rho[nrh];
+  buf.state+=f2*state[xid2].rho[nrh];
   //compute the evolved operator
   buf.op=op.Evolve(H0(xi,nrh),t-t_ini);
   //apply operator to state
@@ -334,16 +338,18 @@ double SQuIDS::GetExpectationValueD(const SU_vector& op, unsigned int nrh, doubl
   size_t xid=std::distance(x.begin(),xit);
 
   //linearly interpolate between the two states
-  double f2=((xi-x[xid])/(x[xid+1]-x[xid]));
+  //with a single node there is nothing to interpolate: that node's state is used
+  const size_t xid2=(xid+1<x.size() ? xid+1 : xid);
+  double f2=(xid2!=xid ? (xi-x[xid])/(x[xid2]-x[xid]) : 0.);
   double f1=1-f2;
   buf.state =f1*state[xid].rho[nrh];
-  buf.state+=f2*state[xid+1].rho[nrh];
+  buf.state+=f2*state[xid2].rho[nrh];
   //compute the evolved operator
   std::unique_ptr<double[]> evol_buf(new double[H0(xi,nrh).GetEvolveBufferSize()]);
   H0(xi,nrh).PrepareEvolve(evol_buf.get(),t-t_ini,scale,avr);
   buf.op=op.Evolve(evol_buf.get());
   //apply operator to state
-  return (buf.op*state[xid].rho[nrh])*f1 + (buf.op*state[xid+1].rho[nrh])*f2;
+  return (buf.op*state[xid].rho[nrh])*f1 + (buf.op*state[xid2].rho[nrh])*f2;
   //return buf.state*buf.op;
 }
 
